@@ -2,6 +2,7 @@ package main
 
 import (
 	"errors"
+	"google.golang.org/protobuf/types/known/fieldmaskpb"
 	"io"
 	"math/rand"
 	"strings"
@@ -23,6 +24,19 @@ var tatPaths = []string{
 	"repeated_string", "repeated_foreign_message", "map_string_string", "map_string_nested_message", "optional_int32",
 	"optional_string", "default_well_known", "default_well_known.default_timestamp", "oneof_default_int32",
 	"default_nested_enum",
+}
+
+// sharedWriteOpts are option values built once and handed to many concurrent writes on different resources and
+// goroutines, the way a program keeps a package-level option: the library may only read them. The paths are
+// deliberately unsorted and overlapping.
+var sharedWriteOpts = []struct {
+	name string
+	opt  resource.WriteOption
+}{
+	{"umask-shared", resource.WithUpdatePaths("default_string", "default_int32", "default_bytes")},
+	{"umask-shared", resource.WithUpdateMask(&fieldmaskpb.FieldMask{Paths: []string{"optional_string", "default_nested_message.a", "default_nested_message", "default_double"}})},
+	{"reset-shared", resource.WithResetPaths("repeated_string", "default_int32")},
+	{"morew-shared", resource.WithMoreWritablePaths("optional_int32", "default_bytes")},
 }
 
 func pickPaths(rng *vk.Rand, pool []string, max int) []string {
@@ -50,8 +64,16 @@ func readerComparer() resource.Comparer {
 func writeOpts(rng *vk.Rand, gp **G, names *[]string) []resource.WriteOption {
 	var opts []resource.WriteOption
 	add := func(n string, o resource.WriteOption) { opts = append(opts, o); *names = append(*names, n) }
-	if rng.Chance(1, 3) {
+	switch rng.Intn(6) {
+	case 0, 1:
 		add("umask", resource.WithUpdatePaths(pickPaths(rng, tatPaths, 3)...))
+	case 2:
+		so := sharedWriteOpts[rng.Intn(2)]
+		add(so.name, so.opt)
+	}
+	if rng.Chance(1, 8) {
+		so := sharedWriteOpts[2+rng.Intn(2)]
+		add(so.name, so.opt)
 	}
 	if rng.Chance(1, 3) {
 		add("before", resource.InterceptBefore(func(old, new proto.Message) { (*gp).sink += readMsg(old) + readMsg(new) }))
